@@ -37,7 +37,7 @@ Qed.
 Theorem run_history_independent rs h h' : run h rs = run h' rs.
 Proof. rewrite (run_pointwise rs h), (run_pointwise rs h'). reflexivity. Qed.
 
-(* whatever came before and whatever the flags: a request of the sequence that is admitted with a
+(* whatever came before and whatever the flags: a request of the sequence that is let in with a
    minted certificate comes from inside the certificate's blocks *)
 Theorem run_sound rs : forall h r cn blocks,
   forallb wf_block blocks = true ->
